@@ -17,7 +17,9 @@ Record snap := mkSnap {
   s_txncount : N;
   s_fees : N;
   s_payset : N;
-  s_intra_ok : bool                    (* Txids[..].Intra is the insertion position *)
+  s_intra_ok : bool;                   (* Txids[..].Intra is the insertion position *)
+  s_aview : list ((N * N) * (option aparams * option holding));   (* non-empty GetAssetParams / GetAssetHolding over U x A *)
+  s_creators : list (N * N)            (* (asset, creator) for every asset of A that GetCreator finds *)
 }.
 
 Fixpoint table_eqb (a b : table) : bool :=
@@ -48,11 +50,26 @@ Fixpoint llist_eqb (a b : list ((N * N) * N)) : bool :=
   | _, _ => false
   end.
 
+Definition ap_eqb (x y : aparams) : bool :=
+  (ap_total x =? ap_total y) && Bool.eqb (ap_dfrozen x) (ap_dfrozen y) && (ap_manager x =? ap_manager y) &&
+  (ap_reserve x =? ap_reserve y) && (ap_freeze x =? ap_freeze y) && (ap_clawback x =? ap_clawback y) &&
+  (ap_extra x =? ap_extra y).
+Definition h_eqb (x y : holding) : bool := (h_amount x =? h_amount y) && Bool.eqb (h_frozen x) (h_frozen y).
+Definition opt_eqb {A} (eqb : A -> A -> bool) (x y : option A) : bool :=
+  match x, y with Some a, Some b => eqb a b | None, None => true | _, _ => false end.
+Fixpoint aview_eqb (a b : list ((N * N) * (option aparams * option holding))) : bool :=
+  match a, b with
+  | [], [] => true
+  | (k, (p, h)) :: r, (k', (p', h')) :: r' => pair_eqb k k' && opt_eqb ap_eqb p p' && opt_eqb h_eqb h h' && aview_eqb r r'
+  | _, _ => false
+  end.
+
 Definition snap_eqb (a b : snap) : bool :=
   table_eqb (s_table a) (s_table b) && nlist_eqb (s_mods a) (s_mods b) &&
   plist_eqb (s_txids a) (s_txids b) && llist_eqb (s_leases a) (s_leases b) &&
   (s_txncount a =? s_txncount b) && (s_fees a =? s_fees b) && (s_payset a =? s_payset b) &&
-  Bool.eqb (s_intra_ok a) (s_intra_ok b).
+  Bool.eqb (s_intra_ok a) (s_intra_ok b) && aview_eqb (s_aview a) (s_aview b) &&
+  plist_eqb (s_creators a) (s_creators b).
 
 (* insertion sort of the lease map by key (the harness sorts the Go map the same way) *)
 Definition lease_lt (a b : (N * N) * N) : bool :=
@@ -65,11 +82,17 @@ Fixpoint lease_insert (x : (N * N) * N) (l : list ((N * N) * N)) : list ((N * N)
 Definition lease_sort (l : list ((N * N) * N)) : list ((N * N) * N) := fold_right lease_insert [] l.
 
 (* the model's evaluator seen the way the harness sees the real one *)
-Definition snap_of (U : list N) (ev : evalst) : snap :=
+Definition aview_of (U A : list N) (c : cow) : list ((N * N) * (option aparams * option holding)) :=
+  filter (fun e => match snd e with (None, None) => false | _ => true end)
+         (flat_map (fun a => map (fun i => ((a, i), (get_params c a i, get_holding c a i))) A) U).
+Definition creators_of (A : list N) (c : cow) : list (N * N) :=
+  flat_map (fun i => match get_creator c i with Some a => [(i, a)] | None => [] end) A.
+
+Definition snap_of (U A : list N) (ev : evalst) : snap :=
   let c := ev_cow ev in
   mkSnap (map (fun a => (a, lookup c a)) U) (modified c) (l_txids (c_top c))
          (lease_sort (l_leases (c_top c))) (l_txncount (c_top c)) (l_fees (c_top c))
-         (N.of_nat (List.length (ev_payset ev))) true.
+         (N.of_nat (List.length (ev_payset ev))) true (aview_of U A c) (creators_of A c).
 
 (* ------------------------------------------------------------------ decoding *)
 Definition opt_bind {A B} (o : option A) (f : A -> option B) : option B :=
@@ -121,6 +144,12 @@ Definition dec_body (t : term) : option body :=
       match a with [rcv; amt; cl] => Some (BPay rcv amt cl) | _ => None end
     else if String.eqb k "keyreg" then
       match a with [vpk; spk; sppk; vf; vl; vkd; np] => Some (BKeyreg vpk spk sppk vf vl vkd (negb (np =? 0))) | _ => None end
+    else if String.eqb k "acfg" then
+      match a with [asset; tot; df; mg; rs; fz; cl; ex] => Some (BAcfg asset (mkAP tot (negb (df =? 0)) mg rs fz cl ex)) | _ => None end
+    else if String.eqb k "axfer" then
+      match a with [asset; amt; asnd; rcv; cl] => Some (BAxfer asset amt asnd rcv cl) | _ => None end
+    else if String.eqb k "afrz" then
+      match a with [asset; acct; fr] => Some (BAfrz asset acct (negb (fr =? 0))) | _ => None end
     else if String.eqb k "other" then Some BOther
     else None
   | _ => None
@@ -167,12 +196,46 @@ Definition dec_leases (t : term) : option (list ((N * N) * N)) :=
   | _ => None
   end.
 
+(* params: 0 or (total dfrozen manager reserve freeze clawback extra); holding: 0 or (amount frozen) *)
+Definition dec_oparams (t : term) : option (option aparams) :=
+  match t with
+  | TZ 0%Z => Some None
+  | TL _ => l <-? as_N_list t ;;
+            match l with
+            | [tot; df; mg; rs; fz; cl; ex] => if forallb w64 l then Some (Some (mkAP tot (negb (df =? 0)) mg rs fz cl ex)) else None
+            | _ => None
+            end
+  | _ => None
+  end.
+Definition dec_oholding (t : term) : option (option holding) :=
+  match t with
+  | TZ 0%Z => Some None
+  | TL _ => l <-? as_N_list t ;;
+            match l with
+            | [amt; fr] => if w64 amt then Some (Some (mkH amt (negb (fr =? 0)))) else None
+            | _ => None
+            end
+  | _ => None
+  end.
+(* (addr asset params holding) *)
+Definition dec_bassets (t : term) : option (list ((N * N) * (option aparams * option holding))) :=
+  match t with
+  | TL l => map_opt (fun e => match e with
+                              | TL [a; i; p; h] => a' <-? as_N a ;; i' <-? as_N i ;; p' <-? dec_oparams p ;; h' <-? dec_oholding h ;;
+                                                   Some ((a', i'), (p', h'))
+                              | _ => None end) l
+  | _ => None
+  end.
+
+Definition dec_aview := dec_bassets.
+
 Definition dec_snap (t : term) : option snap :=
   match t with
-  | TL [tb; mods; TL txids; leases; tc; fees; ps] =>
+  | TL [tb; mods; TL txids; leases; tc; fees; ps; av; crs] =>
     tb' <-? dec_table tb ;; mods' <-? as_N_list mods ;; tx' <-? dec_txids_from 0 txids ;;
     ls' <-? dec_leases leases ;; tc' <-? as_N tc ;; fees' <-? as_N fees ;; ps' <-? as_N ps ;;
-    Some (mkSnap tb' mods' (fst tx') ls' tc' fees' ps' (snd tx'))
+    av' <-? dec_aview av ;; crs' <-? dec_pairs crs ;;
+    Some (mkSnap tb' mods' (fst tx') ls' tc' fees' ps' (snd tx') av' crs')
   | _ => None
   end.
 
@@ -188,24 +251,27 @@ Definition dec_group (t : term) : option gobs :=
 
 Record blockcase := mkCase {
   k_P : params; k_rnd : N; k_prevlvl : N; k_lvl : N; k_ru : N; k_sink : N; k_pool : N; k_sps : N; k_counter : N;
-  k_base : table; k_basetx : list N; k_start : snap; k_groups : list gobs;
-  k_expired : list N; k_absent : list N; k_proposer : N; k_payout : N; k_endcode : N; k_final : table
+  k_base : table; k_basetx : list N; k_bassets : list ((N * N) * (option aparams * option holding)); k_aids : list N;
+  k_start : snap; k_groups : list gobs;
+  k_expired : list N; k_absent : list N; k_proposer : N; k_payout : N; k_endcode : N; k_final : table;
+  k_faview : list ((N * N) * (option aparams * option holding)); k_fcreators : list (N * N)
 }.
 
 Definition dec_case (t : term) : option blockcase :=
   match t with
-  | TL [TS tag; ps; hd; bs; btx; st; TL gs; TL [ex; ab; prop; pay; ec; fin]] =>
+  | TL [TS tag; ps; hd; bs; btx; bas; aids; st; TL gs; TL [ex; ab; prop; pay; ec; fin; fav; fcr]] =>
     if negb (String.eqb tag "blk") then None else
     P <-? dec_params ps ;;
     h <-? as_N_list hd ;;
-    b <-? dec_table bs ;; btx' <-? as_N_list btx ;; st' <-? dec_snap st ;;
+    b <-? dec_table bs ;; btx' <-? as_N_list btx ;; bas' <-? dec_bassets bas ;; aids' <-? as_N_list aids ;;
+    st' <-? dec_snap st ;;
     gs' <-? map_opt dec_group gs ;;
     ex' <-? as_N_list ex ;; ab' <-? as_N_list ab ;; prop' <-? as_N prop ;; pay' <-? as_N pay ;;
-    ec' <-? as_N ec ;; fin' <-? dec_table fin ;;
+    ec' <-? as_N ec ;; fin' <-? dec_table fin ;; fav' <-? dec_aview fav ;; fcr' <-? dec_pairs fcr ;;
     match h with
     | [rnd; prevlvl; lvl; ru; sink; pool; sps; ctr] =>
       if forallb w64 h && w64 pay' then
-        Some (mkCase P rnd prevlvl lvl ru sink pool sps ctr b btx' st' gs' ex' ab' prop' pay' ec' fin')
+        Some (mkCase P rnd prevlvl lvl ru sink pool sps ctr b btx' bas' aids' st' gs' ex' ab' prop' pay' ec' fin' fav' fcr')
       else None
     | _ => None
     end
@@ -219,14 +285,14 @@ Definition env_of (k : blockcase) (validate generate : bool) : env :=
 Definition universe (k : blockcase) : list N := map fst (k_base k).
 
 (* generate+validate evaluator fed with every group; returns "all observations agree" *)
-Fixpoint replay_groups (E : env) (U : list N) (ev : evalst) (gs : list gobs) : bool * evalst :=
+Fixpoint replay_groups (E : env) (U A : list N) (ev : evalst) (gs : list gobs) : bool * evalst :=
   match gs with
   | [] => (true, ev)
   | g :: r =>
     let '(ev1, res) := transaction_group E ev (g_txns g) (g_lsigfee g) in
     let code := match res with Ok _ => 0 | Err e => e end in
-    if (code =? g_code g) && snap_eqb (snap_of U ev1) (g_snap g)
-    then replay_groups E U ev1 r
+    if (code =? g_code g) && snap_eqb (snap_of U A ev1) (g_snap g)
+    then replay_groups E U A ev1 r
     else (false, ev1)
   end.
 
@@ -235,16 +301,18 @@ Definition accepted (gs : list gobs) : list (list txn * N) :=
 
 Definition model_agrees (k : blockcase) : bool :=
   let U := universe k in
-  let b := mkBase (k_base k) (k_basetx k) (k_counter k) in
+  let b := mkBase (k_base k) (k_basetx k) (k_counter k) (k_bassets k) in
   match start_block (env_of k true true) b (k_prevlvl k) (k_ru k) with
   | Err _ => false
   | Ok ev0 =>
-    snap_eqb (snap_of U ev0) (k_start k) &&
-    fst (replay_groups (env_of k true true) U ev0 (k_groups k)) &&
+    snap_eqb (snap_of U (k_aids k) ev0) (k_start k) &&
+    fst (replay_groups (env_of k true true) U (k_aids k) ev0 (k_groups k)) &&
     (* the committed block: eval.Eval in validate mode over the accepted groups *)
     match eval_block (env_of k true false) b (k_prevlvl k) (k_ru k) (accepted (k_groups k))
                      (k_expired k) (k_absent k) (k_proposer k) (k_payout k) with
-    | Ok ev => table_eqb (map (fun a => (a, lookup (ev_cow ev) a)) U) (k_final k) && (k_endcode k =? 0)
+    | Ok ev => table_eqb (map (fun a => (a, lookup (ev_cow ev) a)) U) (k_final k) && (k_endcode k =? 0) &&
+               aview_eqb (aview_of U (k_aids k) (ev_cow ev)) (k_faview k) &&
+               plist_eqb (creators_of (k_aids k) (ev_cow ev)) (k_fcreators k)
     | Err _ => negb (k_endcode k =? 0)
     end
   end.
@@ -332,7 +400,7 @@ Fixpoint dirty_rejects (E : env) (ev : evalst) (gs : list gobs) : N :=
   end.
 
 Definition nontrivial_c19 (k : blockcase) : bool :=
-  let b := mkBase (k_base k) (k_basetx k) (k_counter k) in
+  let b := mkBase (k_base k) (k_basetx k) (k_counter k) (k_bassets k) in
   match start_block (env_of k true true) b (k_prevlvl k) (k_ru k) with
   | Err _ => false
   | Ok ev0 => 0 <? dirty_rejects (env_of k true true) ev0 (k_groups k)
@@ -370,7 +438,7 @@ Definition nontrivial_c21 (k : blockcase) : bool :=
 (* ------------------------------------------------------------------ entry points *)
 Definition model_obs (k : blockcase) : term :=
   (* on disagreement: the model's view after StartEvaluator and the per-group codes *)
-  let b := mkBase (k_base k) (k_basetx k) (k_counter k) in
+  let b := mkBase (k_base k) (k_basetx k) (k_counter k) (k_bassets k) in
   match start_block (env_of k true true) b (k_prevlvl k) (k_ru k) with
   | Err e => TL [TS "start_err"; tn e]
   | Ok ev0 =>
